@@ -30,6 +30,16 @@ func c03Oracle(in []byte) (end int, tree interface{}, info c03Info, err error) {
 		tree, _, rerr = ref.Decode(in)
 	}
 	info.wantOK = end >= 0 && rerr == nil
+	if end >= 0 && ref.HasRiskyNumber(in[:end]) {
+		// encoding/json converts numbers with strconv.ParseFloat, which mis-scales these
+		// literals (ref/number.go: value and even overflow differ); the reference stands alone
+		if info.wantOK {
+			info.invalidUTF = ref.HasInvalidUTF8(in[:end])
+			info.stats = ref.TreeStats(tree)
+			info.nontrivial = info.stats.MaxMembers >= 2 || info.stats.Depth >= 3
+		}
+		return end, tree, info, nil
+	}
 	sv, se, serr := ref.StdDecode(in)
 	if (serr == nil) != info.wantOK {
 		return end, tree, info, errStdDisagree
